@@ -11,11 +11,11 @@ CHECKS = {
    "Little-endian only at whole-byte widths; ULEB128 in [2^63,2^64) may be rejected; float80 compared up to one ulp.",
    "runtime monitor: reflection-driven differential check of reader calls against an arithmetic oracle", "DESIGN.md §3 C02"),
  "C06": ("exploration",
-   "A finite enumerable mutation family (truncations, bit flips, byte overwrites, length saturation, block dup/remove) around the <=6 smallest corpus samples per format x all registered formats + probe x force runs in isolated worker processes; an event is a Go panic escaping decode.Decode/interp.Main or the death of the worker by a Go fatal error. Quick = PRNG slice (250k cases, equal share per format), thorough = the whole family.",
-   "Hangs and out-of-memory kills (decoder loops under force) are inconclusive and listed per format, never verdicts. A crash needing two coordinated edits far apart is outside the family.",
+   "A finite enumerable mutation family (truncations, bit flips, byte overwrites, length saturation, block dup/remove) around the <=6 smallest corpus samples per format x all registered formats + probe x force runs in isolated worker processes; an event is a Go panic escaping decode.Decode/interp.Main or the death of the worker by a Go fatal error. Quick = PRNG slice (250k cases, equal share per format, 1/4 forced) + ~300k field-start cases (first byte of every leaf field of every own sample set to ff/00, plain and forced); thorough = every third case of the enumerated family (residue VERIF_SEED mod 3; ~19M cases in all) + the field-start cases. Workers run with a 256 MB goroutine stack limit so that runaway recursion ends in the runtime's own stack-overflow fault.",
+   "Watchdog expiry and memory-limit kills (length-field bombs under force, decompression bombs) are inconclusive and listed per case, never verdicts. A crash needing two coordinated edits far apart is outside the family. A needle outside the field-start cases and the PRNG slice is only found by the thorough tier.",
    "runtime monitor: crash oracle over an enumerated fault family, process isolation with journaled workers", "DESIGN.md §3 C06"),
  "C07": ("exploration",
-   "Grammar-generated standard jq programs (type-guided, every built-in fq redefines, local defs shadowing fq names) on generated JSON inputs are run by fq (Interp.Eval and the in-process CLI) and by the vanilla gojq fork; output sequences and error positions are compared as values; disagreements are shrunk and signed by (built-ins, input type, kind).",
+   "Grammar-generated standard jq programs (type-guided, every built-in fq redefines, local defs shadowing fq names) on generated JSON inputs are run by fq (Interp.Eval and the in-process CLI) and by the vanilla gojq fork; output sequences and error positions are compared as values; disagreements are shrunk and signed by (built-ins, input type, kind). Deterministic sweeps add every redefined string built-in x every pooled separator/regex/flag, the JSON conversions on special numbers, and uncaught errors of every value kind raised in 24 ways at both boundaries.",
    "Error text is not compared; environment-dependent built-ins are excluded; timeouts are inconclusive.",
    "runtime monitor: differential testing against the embedded reference engine", "DESIGN.md §3 C07"),
  "C08": ("exploration",
@@ -23,7 +23,7 @@ CHECKS = {
    "Documented differences (key order, string key on non-object, underscore keys, non-UTF-8 raw bits) are normalised per query; update operators are outside the family.",
    "runtime monitor: metamorphic/differential check of decode values against their JSON values", "DESIGN.md §3 C08"),
  "C09": ("exploration",
-   "Generated expression trees over strings, integers, big integers, decode-value fields and opened files with tobits/tobytes(/n)/to*range, indexing, slicing, .bits/.bytes, nested binary arrays, tonumber/tostring/explode/to_hex and the size/start/stop/unit keys are evaluated by fq and by a Go reference bit-string evaluator written from doc/usage.md; algebraic laws are derived cases.",
+   "Generated expression trees over strings, integers, big integers, decode-value fields and opened files with tobits/tobytes(/n)/to*range, indexing, slicing, .bits/.bytes, nested binary arrays, tonumber/tostring/explode/to_hex and the size/start/stop/unit keys are evaluated by fq and by a Go reference bit-string evaluator written from doc/usage.md; algebraic laws are derived cases. Members straddle the copy-chunk sizes (512 B..70 KB) and numbers also appear as computed big integers.",
    "Negative top-level numbers and floats are out of domain.",
    "runtime monitor: program generator + reference evaluator", "DESIGN.md §3 C09"),
  "C10": ("exploration",
@@ -59,27 +59,27 @@ CHECKS = {
    "Model encodes the documented contract; explicit single format never gives exit 4.",
    "runtime monitor: reference-model + metamorphic checks over generated command lines", "DESIGN.md §3 C17"),
  "C18": ("exploration",
-   "70 (quick) decode+display jobs on the shared DefaultRegistry are run in a golden process, in permuted orders with repeats, and concurrently on 2..64 goroutines with a start barrier in fresh -race processes; every output is compared byte for byte with the golden and race detector reports are violations.",
-   "Race detector sees only executed unsynchronised accesses; first-use races get a handful of fresh processes.",
+   "~190 (quick) decode+display jobs on the shared DefaultRegistry (one good and one truncated sample per format, generated nested documents, option-carrying and pair-isolation jobs) are run in a golden process, in permuted orders with repeats, in burst histories (every failing decode 12x, then every job), concurrently on 2..64 goroutines with a start barrier, and in cold-start rounds where G goroutines enter decode.Decode for the same job at the same moment, all in fresh -race processes; every output (or tree digest) is compared with the golden and race detector reports are violations.",
+   "Race detector sees only executed unsynchronised accesses; a lazy initialisation is only seen when two first uses really coincide (cold-start rounds: once per good job and run).",
    "Go race detector + output-equality monitor across orders and interleavings", "DESIGN.md §3 C18"),
  "C19": ("exploration",
    "Hand-written Ethernet/raw/SLL/SLL2/loopback + IPv4 + TCP builders and pcap/pcapng writers produce captures of generated conversations (segmentation, interleaving, retransmits, adjacent swaps, fragmentation, omissions); fq's reassembled streams, endpoints, skipped_bytes and ipv4_reassembled are compared with what was sent.",
    "IPv4 only; handshake packets never reordered; a hole is knowable only if a later segment of that direction is captured.",
    "runtime monitor: differential check of reassembly against generated ground truth", "DESIGN.md §3 C19"),
  "C03": ("exploration",
-   "Invariant walker at the API boundary: every *decode.Value returned by decode.Decode for the sample corpus under its own formats, the probe and forced decoding, and for a PRNG slice of the systematic truncation/corruption family (partial trees), is walked and checked for I1..I6 (range inside buffer, children inside parent, unique names + ByName, struct order, array indices, parent links). Jobs run in isolated worker processes.",
-   "Trusts the harness walker; roots' hybrid Range (Start in parent buffer, Len own length) follows decode.go. The generated-decoder reference interpreter of DESIGN §3 C03 is not built yet, so 'ranges are exactly the bits each field read' is only checked through C04/C05 content comparisons.",
-   "runtime monitor: structural-invariant walker over decode trees of corpus + mutation family", "DESIGN.md §3 C03"),
+   "Invariant walker at the API boundary: every *decode.Value returned by decode.Decode for the sample corpus under its own formats, the probe and forced decoding, and for a PRNG slice of the systematic truncation/corruption family (partial trees), is walked and checked for I1..I6 (range inside buffer, children inside parent, unique names + ByName, struct order, array indices, parent links). Jobs run in isolated worker processes. Second monitor (gendec): random decoder programs over the public decode API (struct/array/seek/framed/limited/range/FieldFormat/FieldFormatLen/Range/nested buffers/synthetic values/failures, repeated names, forced decoding) run through the real decode.Decode and through a reference interpreter; names, order, ranges, values and the failing call must agree.",
+   "Trusts the harness walker and the 300-line reference interpreter; roots' hybrid Range (Start in parent buffer, Len own length) follows decode.go. Two listed defects (tls late fields, nested-root start inside a sub-decode window) are known findings.",
+   "runtime monitor: structural-invariant walker over decode trees of corpus + mutation family; reference-model monitor over generated decoder programs", "DESIGN.md §3 C03, §8.2"),
  "C04": ("exploration",
-   "Part 1 enumerates every ordered list of <=3 ranges over buffers of 0..8 bits (and <=4 over 0..5) plus random sets and compares the real ranges.Gaps with a bitmap; part 2 checks every gap-filled decode scope of corpus/mutated/forced decodes: leaves+gaps cover the window, own gaps overlap no other leaf, gap content equals the buffer bits.",
-   "Part 1 is exhaustive only for the stated small scope. For *Len/*Range sub-decodes the window is not recorded in the tree, so only holes inside the scope's own range are detectable there.",
+   "Part 1 enumerates every ordered list of <=3 ranges over buffers of 0..8 bits (and <=4 over 0..5) plus random sets and compares the real ranges.Gaps with a bitmap; part 2 checks every gap-filled decode scope of corpus/mutated/forced decodes: leaves+gaps cover the window, own gaps lie inside it and overlap no other leaf, gap content equals the buffer bits; part 3 runs generated decoder programs (C03's generator) through the same monitor with the true window of every sub-decode taken from the reference interpreter.",
+   "Part 1 is exhaustive only for the stated small scope. In corpus trees the window of a *Len/*Range sub-decode is not recorded, so window coverage is demanded of buffer roots and of sub-decodes that have gap fields of their own (the property is stated per buffer); generated programs do not have this limit.",
    "runtime monitor: exhaustive small-scope differential vs bitmap reference + coverage invariant over decode trees", "DESIGN.md §3 C04"),
  "C05": ("exploration",
-   "For up to 400 values per tree (all roots, gaps, unaligned, errored + PRNG sample) of corpus/mutated/forced decodes done through the jq layer, tobits/tobytes results are read back as bit strings and compared with the input file bits (top-level buffer) or the nested root's reader; every bits_format renderer is decoded back; raw CLI stdout of tobytes is compared with the input.",
+   "For up to 400 values per tree (all roots, gaps, unaligned, errored + PRNG sample) of corpus/mutated/forced decodes done through the jq layer, tobits/tobytes results are read back as bit strings and compared with the input file bits (top-level buffer) or the nested root's reader; every bits_format renderer is decoded back; raw CLI stdout of tobytes (root, values, nested-buffer values, the same buffer twice in one run) is compared with the input; generated ASN.1 BIT STRINGs up to 300 KiB with 1..7 unused bits and decodes of sliced binaries extend the corpus.",
    "Nested-buffer values are compared against the nested root's own reader (its agreement with independent decompressors is C15).",
    "runtime monitor: differential check of jq binaries against the input bytes", "DESIGN.md §3 C05"),
  "C20": ("exploration",
-   "Layer 1 executes every sequence of push/finish/interrupt/stop (length<=7, depth<=4 quick) on the real ctxstack with a handshaked trigger and compares every context with a stack model after every operation; layer 2 records randomized concurrent evaluator/interrupter/observer histories at the client boundary and checks them for linearizability against the same model with porcupine; layer 3 runs interp.Main with scripted nested REPLs and event-driven interrupts and requires the transcript to equal that of the same session without the cancelled work; all under the Go race detector whose reports are violations.",
+   "Layer 1 executes every sequence of push/finish/interrupt/stop (length<=7, depth<=4 quick) on the real ctxstack with a handshaked trigger and compares every context with a stack model after every operation; layer 2 records randomized concurrent evaluator/interrupter/observer histories at the client boundary and checks them for linearizability against the same model with porcupine; layer 2b is an interrupt storm (millions of push/finish groups against a free-running interrupter; no crash, finished contexts cancelled); layer 3 runs interp.Main with scripted nested REPLs and event-driven interrupts and requires the transcript to equal that of the same session without the cancelled work, plus scenarios: abandoned nested evaluation, nested evaluation that fails to compile/include/parse/run, caught cancellation followed by a second interrupt, interrupt while blocked in a read of the input, output suppression after cancellation; all under the Go race detector whose reports are violations.",
    "Precondition from fq's usage: a closure implicitly finished by an outer finish is not invoked later. Race detector only sees executed interleavings.",
    "race detector + exhaustive sequential model check of executions + porcupine linearizability of recorded histories", "DESIGN.md §3 C20"),
  "C01": ("exploration",
